@@ -516,20 +516,30 @@ fn attribute(insn: &Insn, diffs: &mut Vec<(String, String)>, st0: &A64State, ref
         _ => (false, false, false),
     };
     if setflags && flag_diffs > 0 {
-        // SUBS: C is exactly the complement of the architectural carry, N Z V agree
-        if sub && flag_diffs == 1 && has(diffs, "flag-c") && same("c", !ref_st.c) {
-            diffs.retain(|d| d.0 != "flag-c");
-            return Some("C03|subs|flag-c|borrow-instead-of-not-borrow".into());
-        }
         // destination is also a source: the flags are those of the operation applied to the
-        // already-updated register (test: run the reference once more on its own result)
-        if aliased {
+        // already-updated register (test: run the reference once more on its own result; for
+        // SUBS the carry may additionally be complemented)
+        let overwritten_source = || -> bool {
+            if !aliased {
+                return false;
+            }
             let mut again = ref_st.clone();
             again.pc = st0.pc;
-            if again.step(insn).is_ok() && same("n", again.n) && same("z", again.z) && same("v", again.v) && (same("c", again.c) || (sub && same("c", !again.c))) {
+            again.step(insn).is_ok() && same("n", again.n) && same("z", again.z) && same("v", again.v) && (same("c", again.c) || (sub && same("c", !again.c)))
+        };
+        // SUBS: C is exactly the complement of the architectural carry
+        if sub && has(diffs, "flag-c") && same("c", !ref_st.c) {
+            if flag_diffs > 1 && overwritten_source() {
                 diffs.retain(|d| !d.0.starts_with("flag-"));
                 return Some("C03|adds-subs|flags|computed-from-overwritten-source".into());
             }
+            // only C is attributed; any other flag difference stays unexplained
+            diffs.retain(|d| d.0 != "flag-c");
+            return Some("C03|subs|flag-c|borrow-instead-of-not-borrow".into());
+        }
+        if overwritten_source() {
+            diffs.retain(|d| !d.0.starts_with("flag-"));
+            return Some("C03|adds-subs|flags|computed-from-overwritten-source".into());
         }
     }
     if let Insn::BReg { kind, rn } = *insn {
@@ -654,6 +664,11 @@ fn main() -> std::process::ExitCode {
         let w = u32::from_str_radix(argv[2].trim_start_matches("0x"), 16).expect("hex word");
         let pc = argv.get(3).map(|s| u64::from_str_radix(s.trim_start_matches("0x"), 16).expect("hex pc")).unwrap_or(0x1000);
         explain(w, pc);
+        return std::process::ExitCode::SUCCESS;
+    }
+    if argv.len() >= 2 && argv[1] == "--selfcheck" {
+        let t = std::time::Instant::now();
+        println!("{:?} in {:?}", selfcheck::run(), t.elapsed());
         return std::process::ExitCode::SUCCESS;
     }
     if let Err(e) = selfcheck::run() {
